@@ -9,11 +9,11 @@ Record rcase := {
   r_tops : option (list ExSyntax.text);   (* allowedTopLevels; None = nil *)
   r_in : ExSyntax.text;                   (* the template *)
   r_ln : list N;                          (* runes of the template with unicode.IsLetter || unicode.IsNumber *)
-  r_low : list (N * N);                   (* (c, unicode.ToLower c) for runes of template and top levels that change *)
+  r_low : list (N * N);                   (* (c, unicode.ToLower c) for the runes of template, top levels, from and to that change *)
   r_print : list N;                       (* runes of the text-literal values with unicode.IsPrint *)
   r_mode : N;                             (* 0: transformation reporting "unchanged"; 1: identity reporting "changed";
                                              2: ContextRefRename(from, to) *)
-  r_fold : list ExSyntax.text;            (* mode 2: reference names of the template with strings.EqualFold(name, from) *)
+  r_from : ExSyntax.text;                 (* mode 2: ContextRefRename(r_from, r_to) *)
   r_to : ExSyntax.text;
   (* observed on the implementation *)
   r_out : ExSyntax.text;
@@ -27,7 +27,7 @@ Definition check (k : rcase) : bool :=
   let tx : expr -> option expr :=
     if r_mode k =? 0 then (fun _ => None)
     else if r_mode k =? 1 then (fun e => Some e)
-    else rename_tx (fun n => existsb (text_eqb n) (r_fold k)) (r_to k) in
+    else rename_tx lower (r_from k) (r_to k) in
   match refactor_template isln lower printable tx (r_tops k) (r_in k) with
   | Ok (out, errs, inside) =>
       inside && text_eqb out (r_out k) && Bool.eqb (negb (Nat.eqb errs 0)) (r_err k)
